@@ -242,7 +242,38 @@ func posOf(in ssa.Instruction) ipos {
 // entry if from == nil), reaches an instruction satisfying target, and never executes
 // an instruction satisfying avoid.  It returns the target instruction and the block
 // path, or nil.  edgeOK (optional) filters CFG edges (e.g. to follow only a success arm).
+//
+// The search follows the values of each path (Walker): an arm that the values assigned
+// earlier on the path rule out (`err = errors.New(…)` … `if err != nil`) is not taken.  If
+// that exploration exceeds its state budget the plain CFG search decides (conservative).
 func pathAvoiding(fn *ssa.Function, from ssa.Instruction, target, avoid func(ssa.Instruction) bool, edgeOK func(from, to *ssa.BasicBlock) bool) (ssa.Instruction, []*ssa.BasicBlock) {
+	if len(fn.Blocks) == 0 {
+		return nil, nil
+	}
+	var hit ssa.Instruction
+	var path []*ssa.BasicBlock
+	wk := &Walker{Fn: fn}
+	wk.OnInstr = func(env *Env, in ssa.Instruction, trail []*ssa.BasicBlock) bool {
+		if hit != nil {
+			return true
+		}
+		if target(in) {
+			hit, path = in, append([]*ssa.BasicBlock{}, trail...)
+			return true
+		}
+		return avoid != nil && avoid(in)
+	}
+	if edgeOK != nil {
+		wk.OnEdge = func(env *Env, a, b *ssa.BasicBlock, k int) bool { return !edgeOK(a, b) }
+	}
+	wk.Run(from, nil)
+	if !wk.Truncated {
+		return hit, path
+	}
+	return pathAvoidingCFG(fn, from, target, avoid, edgeOK)
+}
+
+func pathAvoidingCFG(fn *ssa.Function, from ssa.Instruction, target, avoid func(ssa.Instruction) bool, edgeOK func(from, to *ssa.BasicBlock) bool) (ssa.Instruction, []*ssa.BasicBlock) {
 	if len(fn.Blocks) == 0 {
 		return nil, nil
 	}
